@@ -89,6 +89,10 @@ class Summ:
         return ("fam", sid) if self.elem(loops) else ("sym", sid)
 
     def emit(self, lst: List[Seg], e: Expr, loops, facts):
+        if e and e[0] == "cond":
+            for f, sub in e[1:]:
+                self.emit(lst, sub, loops, facts | {f})
+            return
         el = self.elem(loops)
         if el is None:
             lst.append(Seg("one", None, [(frozenset(), e)]))
@@ -138,6 +142,11 @@ class Summ:
         if isinstance(node, ast.Name):
             v = self.env.get(node.id)
             if isinstance(v, tuple) and v and v[0] in ("fam", "sym"):
+                return v
+            if isinstance(v, tuple) and v and v[0] == "cond":
+                for f, e in v[1:]:
+                    if f in facts:
+                        return e
                 return v
             raise Incomplete(f"name `{node.id}` is not an index here")
         if isinstance(node, ast.Subscript):
@@ -258,8 +267,23 @@ class Summ:
                     # x in <the list being iterated> is always true
                     self.block(s.body if pos else s.orelse, loops, facts)
                     return
-                self.block(s.body, loops, facts | {("in" if pos else "notin", l)})
-                self.block(s.orelse, loops, facts | {("notin" if pos else "in", l)})
+                f_b, f_o = ("in" if pos else "notin", l), ("notin" if pos else "in", l)
+                env0 = dict(self.env)
+                self.block(s.body, loops, facts | {f_b})
+                env_b = self.env
+                self.env = dict(env0)
+                self.block(s.orelse, loops, facts | {f_o})
+                env_o = self.env
+                merged = dict(env0)
+                for nm in set(env_b) | set(env_o):
+                    vb, vo = env_b.get(nm, env0.get(nm)), env_o.get(nm, env0.get(nm))
+                    if vb == vo:
+                        merged[nm] = vb
+                    elif vb is not None and vo is not None and _is_index(vb) and _is_index(vo):
+                        merged[nm] = ("cond", (f_b, vb), (f_o, vo))
+                    else:
+                        merged[nm] = vb if vb is not None else vo
+                self.env = merged
                 return
             raise Incomplete("condition " + src(s.test)[:40])
         if isinstance(s, ast.Return):
@@ -299,6 +323,10 @@ class Summ:
         return "chr(" in t or ".join(" in t
 
 
+def _is_index(v) -> bool:
+    return isinstance(v, tuple) and bool(v) and v[0] in ("fam", "sym", "cond")
+
+
 def canonical(operands: List[List[Seg]], output: List[Seg]):
     """rename families/symbols by first occurrence; normalise complementary guarded emissions"""
     names: Dict[object, str] = {}
@@ -308,11 +336,40 @@ def canonical(operands: List[List[Seg]], output: List[Seg]):
             names[e] = f"{'f' if e[0] == 'fam' else 'k'}{len(names)}"
         return names[e]
 
+    def split(sg: Seg):
+        """a per-member family restricted to members inside / outside the operand list are independent
+        index sets: guard every emission by its membership fact and name the family per domain"""
+        if sg.kind != "map":
+            return list(sg.items)
+        out = []
+        for f, e in sg.items:
+            if e[0] != "fam":
+                out.append((f, e))
+            elif sg.over == "T":
+                out.append((f, ("fam", (e[1], "in"))))
+            elif ("in", "T") in f:
+                out.append((f, ("fam", (e[1], "in"))))
+            elif ("notin", "T") in f:
+                out.append((f, ("fam", (e[1], "notin"))))
+            else:
+                out.append((f | {("in", "T")}, ("fam", (e[1], "in"))))
+                out.append((f | {("notin", "T")}, ("fam", (e[1], "notin"))))
+        return out
+
     def seq(lst: List[Seg]):
         out = []
         for sg in lst:
-            items = sorted(sg.items, key=lambda it: tuple(sorted(it[0]))) if _exclusive(sg.items) else sg.items
-            out.append((sg.kind, sg.over, tuple((tuple(sorted(f)), nm(e)) for f, e in items)))
+            items = split(sg)
+            # emissions of one member are kept in order; a run of mutually exclusive guarded emissions is sorted
+            norm, run = [], []
+            for it in items:
+                if run and _exclusive([run[-1], it]):
+                    run.append(it)
+                else:
+                    norm += sorted(run, key=lambda t: tuple(sorted(t[0])))
+                    run = [it]
+            norm += sorted(run, key=lambda t: tuple(sorted(t[0])))
+            out.append((sg.kind, sg.over, tuple((tuple(sorted(f)), nm(e)) for f, e in norm)))
         return tuple(out)
 
     return tuple(seq(o) for o in operands), seq(output)
@@ -363,6 +420,10 @@ def spec(name: str):
         return canonical([[_m("S", ((), I)), _o(K)]], [_m("T", ((), I)), _o(K)])
     if name == "reorder_matrix":
         return canonical([[_m("S", ((), R)), _m("S", ((), C))]], [_m("T", ((), R)), _m("T", ((), C))])
+    if name in ("trace_out_vector", "measure_vector"):
+        # marginalising string: the indices of the other members are summed – meaningful for a tensor of
+        # probabilities |amplitude|^2 only; the consumer is checked at the call site (ESCCALL / SAMP-e)
+        return canonical([[_m("S", ((), I)), _o(K)]], [_m("S", (IN_T, I)), _o(K)])
     if name in ("trace_out_matrix", "measure_matrix"):
         # partial trace: a dropped member's column index *is* its row index; kept members keep (r, c) in storage order
         return canonical([[_m("S", ((), R)), _m("S", (IN_T, C), (NOT_T, R))]],
@@ -410,14 +471,6 @@ def escgen(repo: Repo) -> List[Ob]:
             else:
                 obs.append(bad("ESCGEN", fi, "summary", props, fi.node,
                                f"generated einsum indices differ from the specification. got: {show(got)}  |  expected: {show(want)}"))
-        else:
-            # *_vector trace/measure: a ket has no partial trace
-            if _drops_amplitude_index(got):
-                obs.append(bad("ESCGEN", fi, "summary", props, fi.node,
-                               f"the generated string drops an index of a ket ({show(got)}): einsum sums *amplitudes* of the other subsystems, "
-                               "which is not a partial trace / marginal (|amplitude|^2 must be taken before summing)"))
-            else:
-                obs.append(ok("ESCGEN", fi, "summary", props, fi.node, f"no amplitude index is summed: {show(got)}"))
     if analysed < 6:
         raise AnalysisError(f"ESCGEN: only {analysed} of {len(GENERATORS)} generators could be summarised (floor 6)")
     return obs
@@ -510,6 +563,11 @@ def esccall(repo: Repo) -> List[Ob]:
                 uses = [u for u in uses if cfg.node_containing(u) is not None and any(d.ast is not None and any(x is c for x in ast.walk(d.ast)) for d in cfg.reaching_defs(cfg.node_containing(u), tgt))]
                 want_ops = {"apply_operator_vector": 2, "apply_operator_matrix": 3}.get(gen, 1)
                 for u in uses:
+                    if gen in ("trace_out_vector", "measure_vector") and len(u.args) == 2:
+                        from ..domains import is_abs2
+                        if is_abs2(u.args[1]) is None:
+                            problems.append(f"the marginalising string of ESC.{gen} is applied to the *amplitude* tensor `{src(u.args[1])[:30]}`: the amplitudes of the other members are summed "
+                                            "(a ket has no partial trace; |amplitude|^2 must be taken first or the state promoted to a density matrix)")
                     if len(u.args) - 1 != want_ops:
                         problems.append(f"the einsum using this string has {len(u.args) - 1} operands, the generator produces a string for {want_ops}")
                     elif gen == "apply_operator_matrix":
